@@ -30,6 +30,7 @@ func ZZVerifC13Overlay() {
 	keys := []string{nd.String("key", 1), nd.String("key", 1)}
 	nd.Assume(keys[0] != keys[1])
 	steps := nd.Param("S", 3)
+	nested := nd.Bool("read-through-nested-locker")
 	for s := 0; s < steps; s++ {
 		lv := nd.Choose("level", d)
 		k := nd.Choose("keyidx", 2)
@@ -57,6 +58,12 @@ func ZZVerifC13Overlay() {
 				got := levels[l].Value(keys[kk])
 				lk := levels[l].LockData()
 				gotLocked := lk.Value(keys[kk])
+				if nested {
+					// a locker taken from the locker sees the same overlay
+					lk2 := lk.LockData()
+					gotLocked = lk2.Value(keys[kk])
+					lk2.Commit()
+				}
 				lk.Commit()
 				want, has := "", false
 				for a := l; a >= 0; a-- {
